@@ -48,6 +48,10 @@ def make_cfg(name, seed=0, width="narrow", copies=True, moves=True, req=False, r
     elif width == "deep":
         paths = [f"/{a}", f"/{a}/{a}", f"/{a}/{a}/{b}"]
         extra_dst = [f"/{c}"]
+    elif width == "repeat":
+        # a group name that re-appears deeper in the same path, with another segment in between
+        paths = [f"/{a}", f"/{a}/{b}/{a}", f"/{a}/{b}/{a}/{c}"]
+        extra_dst = [f"/{c}"]
     else:
         paths = [f"/{a}", f"/{b}", f"/{a}/{a}", f"/{a}/{b}", f"/{b}/{a}", f"/{b}/{b}"]
         extra_dst = [f"/{c}", f"/{a}/{c}"]
